@@ -18,6 +18,58 @@ DELETIONS = {
 }
 
 
+def _removed_hydrogens_are_rebuilt(prog, r4):
+    """remove_hydrogens (run before PROPKA) and add_hydrogens are evaluated per residue class: a class that loses its
+    hydrogens must be one whose hydrogens are built again."""
+    from ..guards import Flow, Interp, Obj
+    from ..objinterp import ObjRunner
+    classes = [("ALA", "amino acid"), ("DA", "nucleotide"), ("WAT", "water"), ("LIG", "ligand class"), ("Residue", "generic hetero residue (ligands of a complex)")]
+    removed = {}
+
+    def extra(runner, interp, call, args, kw):
+        if isinstance(call.func, ast.Attribute) and call.func.attr == "remove_atom":
+            recv = interp.ev(call.func.value)
+            removed.setdefault(recv["__class__"], []).append(args[0])
+            return None
+        return NotImplemented
+
+    residues = []
+    for cname, _ in classes:
+        res = Obj({"__class__": cname, "name": cname, "atoms": [], "map": {}})
+        for an, ish in (("C1", False), ("H1", True)):
+            a = Obj({"__class__": "Atom", "name": an, "is_hydrogen": ish, "residue": res})
+            res["atoms"].append(a)
+            res["map"][an] = a
+        residues.append(res)
+    run = ObjRunner(prog, "biomolecule.py", extra_hook=extra)
+    rh = prog.func("biomolecule.py", "Biomolecule.remove_hydrogens")
+    try:
+        run.call(Obj({"__class__": "Biomolecule", "residues": residues}), "remove_hydrogens")
+    except Flow as fl:
+        raise AnalysisError(f"remove_hydrogens stops with {fl.value} on the model") from None
+    # which classes does add_hydrogens rebuild?  its residue loop is left for the others by the first guard
+    ah = prog.func("biomolecule.py", "Biomolecule.add_hydrogens").node
+    outer = [s for s in ah.body if isinstance(s, ast.For) and U(s.iter) == "self.residues"]
+    if not outer:
+        raise AnalysisError("add_hydrogens: loop over self.residues not found")
+    first = next((s for s in outer[0].body if isinstance(s, ast.If) and "isinstance" in U(s.test)), None)
+    if first is None:
+        raise AnalysisError("add_hydrogens: class guard of the residue loop not found")
+    rebuilt = set()
+    for res in residues:
+        it = Interp({U(outer[0].target): res}, call_hook=run.hook, loop_hook=run.loop, strict=True)
+        skip = it.truth(it.ev(first.test), first.test)
+        from ..core import terminates
+        if not (skip and terminates(first.body)):
+            rebuilt.add(res["__class__"])
+    lost = {c: v for c, v in removed.items() if c not in rebuilt}
+    heavy = {c: [n for n in v if not n.startswith("H")] for c, v in removed.items() if any(not n.startswith("H") for n in v)}
+    r4.add("removed-hydrogens-are-rebuilt", not lost and not heavy,
+           f"remove_hydrogens strips hydrogens from {sorted(removed)}; add_hydrogens rebuilds them for {sorted(rebuilt)}" +
+           (f" -- {sorted(lost)} lose their hydrogens for good (e.g. the explicit hydrogens of a ligand in a complex, before PROPKA runs)" if lost else "") +
+           (f" -- heavy atoms removed: {heavy}" if heavy else ""), f"pdb2pqr/biomolecule.py:{rh.node.lineno} (Biomolecule.remove_hydrogens)")
+
+
 def check(prog, rep):
     rep.explanation = (
         "partition/def-use analysis of the hit and miss lists up to the printer, family-wise pairing of temporary atom "
@@ -43,8 +95,9 @@ def check(prog, rep):
     r2.add("printed=hits", len(pr) == 1 and U(pr[0].args[0]) == hit, f"print_biomolecule_atoms({U(pr[0].args[0]) if pr else '?'}, ...); hit list is {hit!r}", w)
     rebinds = [s for s in iter_stmts(nt.body) if isinstance(s, ast.Assign) and any(U(tg) == hit for tg in s.targets) and s is not bind[0]]
     augs = [s for s in iter_stmts(nt.body) if isinstance(s, ast.AugAssign) and U(s.target) == hit]
-    okaug = all(isinstance(a.value, ast.Name) and a.value.id == "lig_atoms" and any("args.ligand is not None" in U(tst) for tst, p in guards_of(a) if p) for a in augs)
-    r2.add("hits-only-extended-by-ligand", not rebinds and okaug, f"re-bindings of {hit}: {len(rebinds)}; extensions: {[U(a) for a in augs]}", w)
+    okaug = all(any("ligand" in U(tst) for tst, p in guards_of(a) if p) for a in augs)
+    r2.add("hits-only-extended-by-ligand", not rebinds and okaug, f"re-bindings of {hit}: {len(rebinds)}; extensions (all inside the ligand block; "
+           f"what they add is decided on the model complex, R15): {[U(a)[:60] for a in augs]}", w)
     ret = [s for s in nt.body if isinstance(s, ast.Return)]
     rd = {k.value: U(v) for k, v in zip(ret[0].value.keys, ret[0].value.values)} if ret and isinstance(ret[0].value, ast.Dict) else {}
     r2.add("returned=misses", rd.get("missed_residues") == miss and rd.get("lines") == "lines", f"returned dict: {rd}", w)
@@ -194,6 +247,8 @@ def check(prog, rep):
             elif key.endswith("apply_patch"):
                 ok = any(U(lp.iter) == "patch.remove" for lp in _all_for(c))
             r4.add(k, ok, DELETIONS[key], where)
+    rep_ = rep
+    rep_.guarded(_removed_hydrogens_are_rebuilt, prog, r4)
     heavy_removed = {}
     for P in t.patch_list:
         hv = [r for r in P.remove if not r.startswith("H")]
@@ -284,6 +339,7 @@ def check(prog, rep):
     rep.rules[-1].rid = "R11"
     for ob in rep.rules[-1].obs:
         ob.rule = "R11"
+    rep.guarded(shared.rule_ligand_block_model, prog, rep, "R15")
     for fn_, rid_ in ((c07.rule_eof, "R12"), (c07.rule_flush, "R13"), (c07.rule_models, "R14")):
         fn_(prog, rep)  # reader stops only at end of file; every pending residue is flushed; only further models are left out
         rep.rules[-1].rid = rid_
